@@ -34,7 +34,6 @@ Proved here, for programs of every size, every nesting of the contexts and every
                                           (that is C04's theorem about generated code; here it is a
                                           hypothesis, checked dynamically by the `probe` oracle of
                                           channel `tail`).
-<<<<<<< HEAD
      `bodyBalanced_of_matched`            that hypothesis DERIVED from C04's verifier (`Bal.tail_site_depths`:
                                           in any verified function a tail sequence stands under exactly
                                           k+1 scopes and, behind `PrepareCall`, the formals' worth of
@@ -44,7 +43,6 @@ Proved here, for programs of every size, every nesting of the contexts and every
                                           still assumes per iteration is the refinement VM.exec ⊑ Bal.CStep);
      `verified_of_generated`              every `fn`/`defn` the model generator makes is verified (C04
                                           `gen_balanced`), so `MatchedBody.verified` holds for them.
-=======
      `tail_guard_passes`                  (fix C09-02) the sequence starts with a guard that looks the
                                           name up before the operands; it lets the jump happen exactly
                                           when the name still denotes the function object that is running;
@@ -54,7 +52,6 @@ Proved here, for programs of every size, every nesting of the contexts and every
                                           The body stretch of `BodyBalanced` therefore contains a passed
                                           guard: constant space is claimed for the iterations in which the
                                           name still denotes the running function, and only for those.
->>>>>>> w-C09
  (d) `TcoTransparent`                     full statement (VM model = reference evaluator), NOT proved;
      `tco_transparent_partial`            the parts proved: the continuation is never dropped
                                           (only tail positions jump), the tail sequence changes
@@ -315,7 +312,6 @@ theorem tail_call_constant_space_partial (body : St → St → Prop) (f np d l a
     exact this
 
 
-<<<<<<< HEAD
 /-! ### (c) with the balance of the body derived from C04 -/
 
 /-- a data-stack cell as the balance checker sees it: a stack-mark or an ordinary value -/
@@ -481,7 +477,6 @@ example : MatchedBody 2 1 atTailCall atTailCall where
   same := ⟨rfl, rfl⟩
   run := Bal.Reach.refl _
   prep := fun x nargs hf => prep_of_fixed 2 atTailCall atTailCall rfl ⟨rfl, rfl⟩ (by decide) rfl x nargs hf
-=======
 /-! ### The guard (fix C09-02): jump only while the name still denotes the running function -/
 
 /-- The guard falls through — and the tail sequence is taken, in constant space — exactly when
@@ -551,7 +546,6 @@ example : At atGuardRebound 2 (selfTailCode "f" [.sym "n"] 0 [.envToStack "n"] +
   have h7 : lexLookup atGuardRebound "f" = some (0, intOfLit 7) := by decide
   rw [h7] at h
   cases h
->>>>>>> w-C09
 
 /-! ### Non-vacuity of (c): a concrete tail site -/
 
